@@ -488,27 +488,27 @@ StepDeviation(rid, sd, dr, cls, pi, a) ==
     ELSE ""
 
 \* one executed step on one abstract tuple: [cnt: yes | no | either | zero, a: the abstract tuple after the step,
-\* dev: the deviation that was applied (one of the switches dv that are on)]
+\* dev: the deviation that was applied (one of the switches dv that are on), cand: the one that would apply]
 StepOn(rid, sd, dr, supported, underflow, cls, pi, a, dv) ==
     LET dirty == (Known(a) \cup Unk(a)) \cap dr.rd # {}
         dv0 == IF supported /\ dr.stk = "" THEN StepDeviation(rid, sd, dr, cls, pi, a) ELSE ""
         dev == IF dv0 \in dv THEN dv0 ELSE ""        \* dv: the set of deviation switches that are on
         done == [el |-> [e \in E |-> IF e \in dr.wr THEN "val" ELSE a.el[e]], sn |-> Persist(dr, a)]
     IN
-    IF ~supported THEN [cnt |-> "zero", a |-> a, dev |-> ""]
+    IF ~supported THEN [cnt |-> "zero", a |-> a, dev |-> "", cand |-> dv0]
     ELSE IF dr.stk # "" THEN
-         IF underflow THEN [cnt |-> "no", a |-> [el |-> AllAny, sn |-> TRUE], dev |-> ""]
-         ELSE [cnt |-> "yes", a |-> [el |-> [e \in E |-> IF e \in dr.wr THEN "any" ELSE a.el[e]], sn |-> Persist(dr, a)], dev |-> ""]
-    ELSE IF dev = "DEV_gridshift_inv_outside_unchanged" THEN [cnt |-> "no", a |-> a, dev |-> dev]
-    ELSE IF dev \in {"DEV_deflection_null_ignored", "DEV_laea_equatorial_inverse_rejects"} THEN [cnt |-> "no", a |-> [el |-> AllAny, sn |-> TRUE], dev |-> dev]
+         IF underflow THEN [cnt |-> "no", a |-> [el |-> AllAny, sn |-> TRUE], dev |-> "", cand |-> dv0]
+         ELSE [cnt |-> "yes", a |-> [el |-> [e \in E |-> IF e \in dr.wr THEN "any" ELSE a.el[e]], sn |-> Persist(dr, a)], dev |-> "", cand |-> dv0]
+    ELSE IF dev = "DEV_gridshift_inv_outside_unchanged" THEN [cnt |-> "no", a |-> a, dev |-> dev, cand |-> dv0]
+    ELSE IF dev \in {"DEV_deflection_null_ignored", "DEV_laea_equatorial_inverse_rejects"} THEN [cnt |-> "no", a |-> [el |-> AllAny, sn |-> TRUE], dev |-> dev, cand |-> dv0]
     ELSE IF dev = "DEV_laea_polar_inverse_no_disc"
-         THEN [cnt |-> "yes", a |-> [el |-> [e \in E |-> IF e \in dr.wr THEN "any" ELSE a.el[e]], sn |-> Persist(dr, a)], dev |-> dev]
-    ELSE IF dev # "" THEN [cnt |-> "no", a |-> done, dev |-> dev]
-    ELSE IF ~dirty /\ cls = "in"  THEN [cnt |-> "yes", a |-> done, dev |-> ""]
-    ELSE IF ~dirty /\ cls = "nul" THEN [cnt |-> "yes", a |-> a, dev |-> ""]
-    ELSE IF ~dirty /\ cls = "out" THEN [cnt |-> "no", a |-> [el |-> AllAny, sn |-> TRUE], dev |-> ""]
+         THEN [cnt |-> "yes", a |-> [el |-> [e \in E |-> IF e \in dr.wr THEN "any" ELSE a.el[e]], sn |-> Persist(dr, a)], dev |-> dev, cand |-> dv0]
+    ELSE IF dev # "" THEN [cnt |-> "no", a |-> done, dev |-> dev, cand |-> dv0]
+    ELSE IF ~dirty /\ cls = "in"  THEN [cnt |-> "yes", a |-> done, dev |-> "", cand |-> dv0]
+    ELSE IF ~dirty /\ cls = "nul" THEN [cnt |-> "yes", a |-> a, dev |-> "", cand |-> dv0]
+    ELSE IF ~dirty /\ cls = "out" THEN [cnt |-> "no", a |-> [el |-> AllAny, sn |-> TRUE], dev |-> "", cand |-> dv0]
     \* counted (then NaN inputs propagate and untouched elements stay) or not (then NaN somewhere): which is not prescribed
-    ELSE [cnt |-> "either", a |-> [el |-> AllAny, sn |-> Persist(dr, a)], dev |-> ""]
+    ELSE [cnt |-> "either", a |-> [el |-> AllAny, sn |-> Persist(dr, a)], dev |-> "", cand |-> dv0]
 
 \* the head: the first executed step that is neither an identity nor a stack step - its points are the members
 IsPlainStep(P, d, i) == Rows[P[i].r].ident \/ StepRec(P, d, i).stk # ""
@@ -566,7 +566,9 @@ PipeRunD(P, d, m, dv) == RunFrom(P, d, m, 1, Initial(m), dv)
 PipeRun(P, d, m) == PipeRunD(P, d, m, {})
 FinalD(P, d, m, dv) == LET run == PipeRunD(P, d, m, dv) IN IF Len(run) = 0 THEN Initial(m) ELSE run[Len(run)].a
 Final(P, d, m) == FinalD(P, d, m, {})
-PipeDevs(P, d, MS) == UNION {{PipeRunD(P, d, m, AllDevs)[k].dev : k \in 1..Len(Exec(P, d))} : m \in MS} \ {""}
+\* the deviation switches that could matter for this pipeline: those that would apply in the reference run or in the run
+\* with every switch on (one switch can hide or expose the trigger of another further down the pipeline)
+PipeDevs(P, d, MS) == UNION {{PipeRunD(P, d, m, dv)[k].cand : k \in 1..Len(Exec(P, d)), dv \in {{}, AllDevs}} : m \in MS} \ {""}
 
 \* bounds of the count of executed step k over a set of members, and of the pipeline
 StepLoD(P, d, MS, k, dv) == Cardinality({m \in MS : PipeRunD(P, d, m, dv)[k].cnt = "yes"})
